@@ -113,6 +113,8 @@ def check_dispatch(ctx):
                 # "is not sentinel"
                 if rv[0] == "call" and rv[1].endswith("_cache.get"):
                     cls = "cache-hit"
+                elif rv[0] == "index" and rv[1] == ("self", "_cache"):
+                    cls = "cache-hit"     # try: return self._cache[key]
             if cls is None:
                 ctx.ob(tag + ":unrecognised:" + ast.unparse(ps.items[-1][1]),
                        False, loc,
